@@ -19,9 +19,9 @@ PLAN = {
     "C04": {"runs": [("conc", "interleave", 120, 3000, ["--ext"]), ("conc", "race", 240, 8000, []), ("locks", "stress", 300, 2000, []), ("stress", "threads", 400, 3000, []), (S, "mixed", 240, 6000, []), (S, "ttl", 120, 3000, []), (S, "burst", 120, 3000, [])]},
     "C05": {"runs": [("conc", "interleave", 120, 3000, ["--ext"]), ("conc", "race", 240, 8000, []), ("locks", "stress", 300, 2000, []), ("stress", "threads", 400, 3000, []), (S, "burst", 240, 6000, []), (S, "pressure", 160, 4000, []), (S, "mixed", 80, 2000, [])]},
     "C06": {"runs": [("pure", "tables", 1, 1, []), (S, "pressure", 400, 10000, []), (S, "reads", 80, 2000, [])]},
-    "C07": {"runs": [("conc", "interleave", 120, 3000, ["--ext"]), ("conc", "race", 240, 8000, []), (S, "ttl", 240, 6000, []), (S, "mixed", 160, 4000, []), (S, "burst", 80, 2000, [])]},
-    "C08": {"runs": [("pure", "tables", 1, 1, []), ("conc", "interleave", 120, 3000, ["--ext"]), ("conc", "race", 240, 8000, []), (S, "ttl", 240, 6000, []), (S, "mixed", 240, 6000, [])]},
-    "C09": {"runs": [("conc", "interleave", 120, 3000, ["--ext"]), ("conc", "race", 240, 8000, []), (S, "ttl", 400, 10000, []), (S, "mixed", 80, 2000, [])]},
+    "C07": {"runs": [("conc", "interleave", 120, 3000, ["--ext"]), ("conc", "race", 240, 8000, []), ("locks", "stress", 300, 2000, []), (S, "ttl", 240, 6000, []), (S, "mixed", 160, 4000, []), (S, "burst", 80, 2000, [])]},
+    "C08": {"runs": [("pure", "tables", 1, 1, []), ("conc", "interleave", 120, 3000, ["--ext"]), ("conc", "race", 240, 8000, []), ("locks", "stress", 300, 2000, []), (S, "ttl", 240, 6000, []), (S, "mixed", 240, 6000, [])]},
+    "C09": {"runs": [("conc", "interleave", 120, 3000, ["--ext"]), ("conc", "race", 240, 8000, []), ("locks", "stress", 300, 2000, []), (S, "ttl", 400, 10000, []), (S, "mixed", 80, 2000, [])]},
     "C10": {"runs": [("conc", "interleave", 120, 3000, ["--ext"]), ("conc", "race", 240, 8000, []), ("locks", "stress", 300, 2000, []), ("stress", "threads", 400, 3000, []), (S, "ttl", 400, 10000, []), (S, "pressure", 80, 2000, [])]},
     "C11": {"runs": [("conc", "interleave", 120, 3000, ["--ext"]), ("conc", "race", 240, 8000, []), ("locks", "stress", 300, 2000, []), ("stress", "threads", 400, 3000, []), (S, "burst", 400, 10000, []), (S, "mixed", 80, 2000, [])]},
     "C12": {"runs": [("ack", "polls", 2, 3, []), ("locks", "stress", 300, 2000, []), ("stress", "threads", 400, 3000, []), (S, "burst", 160, 4000, []), (S, "mixed", 80, 2000, [])],
@@ -29,7 +29,7 @@ PLAN = {
     "C13": {"runs": [("conc", "interleave", 160, 4000, ["--ext"]), ("conc", "race", 240, 8000, []), ("locks", "stress", 500, 4000, []), ("ack", "polls", 2, 3, []), (S, "burst", 400, 10000, []), (S, "mixed", 80, 2000, [])]},
     "C14": {"runs": [("pure", "tables", 1, 1, []), (S, "reads", 320, 8000, [])],
             "rule": "exhaustive tables: all 256 byte values x 3 neighbours x 7 positions for Row::increment_at/get_at/half/clear, next_power_2 around every power of two, FrequencyCounter / TinyLFU streams for 30 counter sizes; plus Layer A histories with the consumer; non-trivial = a case that exercises the sketch"},
-    "C15": {"runs": [("conc", "interleave", 120, 3000, ["--ext"]), ("conc", "race", 240, 8000, []), ("locks", "stress", 300, 2000, []), ("stress", "threads", 400, 3000, []), (S, "reads", 400, 10000, []), (S, "mixed", 80, 2000, [])]},
+    "C15": {"runs": [("conc", "interleave", 120, 3000, ["--ext"]), ("conc", "race", 240, 8000, []), ("locks", "stress", 300, 2000, []), ("stress", "threads", 400, 3000, []), (S, "reads", 400, 10000, []), (S, "bigbuf", 48, 1200, []), (S, "mixed", 80, 2000, [])]},
     "C16": {"runs": [("pure", "tables", 1, 1, []), ("stress", "threads", 400, 3000, []), (S, "mixed", 240, 6000, []), (S, "reads", 120, 3000, []), (S, "pressure", 120, 3000, [])]},
     "C17": {"runs": [("pure", "tables", 1, 1, []), (S, "boundary", 400, 10000, []), (S, "mixed", 80, 2000, [])]},
     "C18": {"runs": [("conc", "interleave", 120, 3000, ["--ext"]), ("conc", "race", 240, 8000, []), ("locks", "stress", 700, 6000, []), ("stress", "threads", 400, 3000, []), (S, "burst", 240, 6000, []), (S, "mixed", 160, 4000, [])],
